@@ -151,15 +151,35 @@ def judge(prog: Program, run: dict[str, Any], info: dict[str, Any]) -> list[dict
                              f"stage {ref} received {per_down.get(sid, 0)} StartStage from {done_ups} completed upstream(s)", "trigger-twice"))
     # 3b. planned once also means: each synthetic child (before / after stage) is created once per parent - storing
     # them is the one part of a start that the optimistic lock on the parent row does not cover
-    made: dict[tuple[str, str, str], int] = {}
-    for sid_, info_ in h.stage_info.items():
-        if info_.get("parent"):
-            k_ = (info_["parent"], str(info_.get("owner")), str(info_.get("name")))
-            made[k_] = made.get(k_, 0) + 1
-    for (par, owner, name), n in made.items():
-        if n > 1:
-            problems.append(("synthetic-stage-created-twice", f"stage {h.key_of_stage(par)}: its {owner} child '{name}' was created {n} times "
-                                                                f"(two start handlings both planned it)", "synthetic-twice"))
+    from sim.oracles import ctx_handler, ctx_msgid
+
+    made: dict[tuple[str, str, str], list[dict[str, Any]]] = {}
+    for r in h.audit:
+        if r["kind"] == "stage_ins":
+            info_ = h.stage_info.get(r["row_id"]) or {}
+            if info_.get("parent"):
+                made.setdefault((info_["parent"], str(info_.get("owner")), str(info_.get("name"))), []).append(r)
+    claim_of: dict[tuple[str, str], int] = {}     # (stage id, message id) -> seq of that handling's claim write
+    for r in h.audit:
+        if r["kind"] == "stage" and r["new"] == "RUNNING" and ctx_handler(r["ctx"]) == "StartStage":
+            claim_of.setdefault((r["row_id"], ctx_msgid(r["ctx"])), r["seq"])
+    for (par, owner, name), rows in made.items():
+        if len(rows) > 1:
+            # the planner asks the store "does this stage own before-stages already?" right before it builds them.  Two
+            # handlings that both ask before either has stored its set is a window the engine is known to have
+            # (KF-C04-before-stages-planned-twice); a second set built although the first one was durable *before the
+            # second handling even claimed the stage* is not that window
+            first, second = rows[0], rows[1]
+            m2 = ctx_msgid(second["ctx"])
+            c2 = claim_of.get((par, m2))
+            # did the second planner ask, after its own claim, while the first set was not durable yet?
+            asked = [d for (cx, d, what, arg) in getattr(h.w, "read_marks", [])
+                     if what == "synthetic_children" and arg == par and ctx_msgid(cx) == m2 and ctx_handler(cx) == "StartStage"]
+            raced = c2 is not None and any(c2 <= d < first["seq"] for d in asked)
+            problems.append(("synthetic-stage-created-twice", f"stage {h.key_of_stage(par)}: its {owner} child '{name}' was created {len(rows)} times "
+                                                                f"(two start handlings both planned it"
+                                                                + ("; the second planner asked the store after its own claim, before the first set was durable)" if raced else ")"),
+                             "synthetic-twice" + (":both-asked-before-either-stored" if raced else "")))
     # 4. each task step once
     for x in check_ledger_unique(h, "C04"):
         problems.append(("task-ran-twice", x["msg"], "task-twice"))
